@@ -321,6 +321,8 @@ pub struct Tr<'a> {
     mut_ref_params: Vec<String>,
     /// `let p = s.as_ptr();` — p stands for (slice term, slice type)
     ptr_alias: HashMap<String, (String, Ty, Option<String>)>,
+    /// `let p = s.as_ptr() as *const [T; N];` — p -> N
+    ptr_array_len: HashMap<String, String>,
     /// generic parameters bounded by `Pattern` / `BytesPattern`: modelled as the pattern's bytes
     pattern_generics: Vec<String>,
     /// generic parameters replaced by concrete types (witness-arm targets)
